@@ -2,7 +2,7 @@
    Only statements, each closed by [exact] of a lemma of C22/Proofs.v, and their assumptions.
    Vocabulary: C21/Model.v ([build]: any sequence of builder operations), C22/Model.v ([show] = Display,
    [parse] = TryFrom<&str>) mirror the code; C22/Spec.v ([spec_parse]: a reader written from the specification's
-   quoting rules, [pairs_of]: the key/value pairs a rule record denotes, the three known classes). *)
+   quoting rules, [pairs_of]: the key/value pairs a rule record denotes, the two known classes). *)
 From ZV Require Import Base.Bytes Base.Res C21.Model C22.Model C22.Spec C22.Proofs.
 
 (* The full statement (kept visible; refuted below on the pinned tree). *)
@@ -15,9 +15,10 @@ Theorem C22_full_refuted : ~ (forall (ops : list bop) (r : rule), build ops = Ok
 Proof. exact full_refuted. Qed.
 Print Assumptions C22_full_refuted.
 
-(* zbus reads its own output back as the same rule, unless the rule is empty or an argument value has a comma. *)
+(* zbus reads its own output back as the same rule, unless an argument value has a comma
+   (the rule without keys is included since fix 235b9dce). *)
 Theorem C22_roundtrip_partial : forall (ops : list bop) (r : rule), build ops = Ok r ->
-  k_empty_rule r = false -> k_comma_value r = false -> parse (show r) = Ok r.
+  k_comma_value r = false -> parse (show r) = Ok r.
 Proof. exact roundtrip_built. Qed.
 Print Assumptions C22_roundtrip_partial.
 
@@ -50,12 +51,6 @@ Proof. exact parse_no_panic. Qed.
 Print Assumptions C22_parse_never_panics.
 
 (* Known findings. *)
-Theorem C22_empty_rule_refuted :
-  build [] = Ok empty_rule /\ show empty_rule = [] /\ parse (show empty_rule) = Err EInvalidMatchRule /\
-  spec_parse (show empty_rule) = Some (pairs_of empty_rule).
-Proof. exact empty_rule_refuted. Qed.
-Print Assumptions C22_empty_rule_refuted.
-
 Theorem C22_comma_value_refuted : exists r, build [OArg 0 (B "a,b")] = Ok r /\ show r = B "arg0='a,b'" /\
   parse (show r) = Err EInvalidMatchRule /\ spec_parse (show r) = Some (pairs_of r).
 Proof. exact comma_value_refuted. Qed.
